@@ -216,11 +216,21 @@ static void run_split_context(const Case& c) {
     bool threw = false;
     try {
       pieces = phosg::split_context(s, d, m);
-    } catch (const std::runtime_error&) {
+    } catch (const std::exception&) {
       threw = true;
     }
-    VCHECK(threw == !sc.balanced, threw ? "split_context-throws-on-balanced" : "split_context-accepts-unbalanced", "split_context(", hex(s), ", ", (int)(unsigned char)d, ", ", m, ") ", threw ? "threw" : "returned", " but the scanner finds the input ", sc.balanced ? "balanced" : "unbalanced");
-    if (threw) continue;
+    // "... whenever it accepts the input": which texts (and delimiters) the bracket-aware split accepts is its own decision - the
+    // statement binds it only where it returns. A refusal is counted; a result for a text this scanner finds unbalanced (where
+    // "top-level" has no agreed meaning) must still join back to the text.
+    if (threw) {
+      ctx().cls(sc.balanced ? "split_context:refused a text this scanner finds balanced" : "split_context:refused an unbalanced text");
+      continue;
+    }
+    if (!sc.balanced) {
+      ctx().cls("split_context:accepted a text this scanner finds unbalanced");
+      VCHECK(phosg::join(pieces, dstr) == s, "split_context-join-inverse", "join(split_context(", hex(s), ", max_splits=", m, ")) == ", hex(phosg::join(pieces, dstr)));
+      continue;
+    }
     bool capped = (m != 0) && (sc.top.size() > m);
     size_t used = capped ? m : sc.top.size();
     VCHECK(pieces.size() == used + 1, "split_context-count", "split_context(", hex(s), ", max_splits=", m, ") returned ", pieces.size(), " pieces; top-level delimiters: ", sc.top.size());
